@@ -1230,9 +1230,9 @@ theorem rxcs_fcnt_mono (m : MacState) (s : Session) (hm : joinedWith m s) (mp : 
     obtain ⟨s1, hj1, hle1, _⟩ := macHandleRx_fcnt_mono m s hm v mp snr true o m1 hrx
     cases o with
     | none =>
-      simp only [pure, Except.pure, Except.ok.injEq, Prod.mk.injEq] at hk
-      obtain ⟨_, _, rfl⟩ := hk
-      exact ⟨s1, hj1, hle1⟩
+      simp only at hk
+      obtain ⟨s2, hj2, hle2⟩ := ih m1 s1 hj1 os fin hk
+      exact ⟨s2, hj2, Nat.le_trans hle1 hle2⟩
     | some o =>
       simp only at hk
       obtain ⟨⟨os2, fin2, m2⟩, hrest, hk2⟩ := Except.bind_eq_ok hk
